@@ -60,6 +60,11 @@ fn loosely_matches_at(rng: &mut ChaCha8Rng, s: u128, v: &[f64]) -> Option<&'stat
     }
     rng.set_word_pos(s);
     let z: Vec<f64> = v.iter().map(|_| StandardNormal.sample(rng)).collect();
+    // the leading coordinates are the samples, bit for bit, but not all of them: only part of the momentum was redrawn
+    let lead = v.iter().zip(&z).take_while(|(a, b)| a.to_bits() == b.to_bits()).count();
+    if lead >= 1 && lead < v.len() {
+        return Some("partial");
+    }
     let r0 = v[0] / z[0];
     if r0.is_finite() && r0 != 0.0 && v.iter().zip(&z).all(|(a, b)| ((a / b) - r0).abs() <= 1e-9 * r0.abs()) {
         return Some("scaled");
